@@ -158,6 +158,9 @@ class Machine(object):
         elif k == "cons":
             lhs = regs[op["lhs"]]
             rhs = self._num_or_reg(op["rhs"])
+            if op.get("scale"):
+                # the same constraint written in other units (badly scaled data: tiny or huge multipliers)
+                lhs, rhs = op["scale"] * lhs, op["scale"] * rhs
             rel = op["rel"]
             c = (lhs <= rhs) if rel == "<=" else ((lhs >= rhs) if rel == ">=" else (lhs == rhs))
             owner = op.get("owner", "pep")
@@ -177,6 +180,16 @@ class Machine(object):
                                       "sense": "equality" if rel == "==" else "inequality", "op": op})
         elif k == "lmi":
             rows = [[self._num_or_reg(x) for x in row] for row in op["rows"]]
+            rows_decl = [list(r) for r in rows]
+            buf = None
+            if op.get("via_numpy"):
+                # the user hands over a numpy object array (and may reuse it afterwards)
+                import numpy as _np
+                buf = _np.empty((len(rows), len(rows[0])), dtype=object)
+                for i_, r_ in enumerate(rows):
+                    for j_, x_ in enumerate(r_):
+                        buf[i_, j_] = x_
+                rows = buf
             owner = op.get("owner", "pep")
             if owner == "pep":
                 m = self.pep.add_psd_matrix(rows, name=op.get("name"))
@@ -187,10 +200,15 @@ class Machine(object):
                 before = len(f.list_of_psd)
                 f.add_psd_matrix(rows, name=op.get("name"))
                 m = f.list_of_psd[before]
+            if buf is not None and op.get("clobber"):
+                for i_ in range(buf.shape[0]):
+                    for j_ in range(buf.shape[1]):
+                        # the caller's work array is reused for something else (another well-formed LMI: the identity)
+                        buf[i_, j_] = Expression(is_leaf=False, decomposition_dict={1: 1.0 if i_ == j_ else 0.0})
             if op.get("out"):
                 regs[op["out"]] = m
             if owner is not None:
-                self.declared.append({"kind": "lmi", "owner": owner, "obj": m, "op": op})
+                self.declared.append({"kind": "lmi", "owner": owner, "obj": m, "op": op, "rows_decl": rows_decl})
         elif k == "recons":
             # the SAME constraint object registered once more (on the problem or on a function)
             c = regs[op["k"]]
@@ -525,6 +543,8 @@ def fam_method(rng, opts=None):
         xs, vs = b.stat(F)
     # initial condition
     ic = b.pick(["dist", "dist", "dist_R", "fval"]) if cls1 != "RsiEbFunction" else "dist"
+    if opts.get("ic"):
+        ic = opts["ic"]
     if ic == "fval" and (cls1 in ("ConvexLipschitzFunction",) or len(terms) > 1):
         ic = "dist"
     if ic == "fval":
@@ -533,7 +553,11 @@ def fam_method(rng, opts=None):
         b.cons(e, "<=", 1.0, initial=True, name=b.pick([None, "init"]))
     else:
         e = b.sqdist(x0, xs)
-        b.cons(e, "<=", 1.0 if ic == "dist" else 2.25, initial=True)
+        kw = {}
+        if rng.random() < 0.06 or opts.get("ic_scale"):
+            kw["scale"] = opts.get("ic_scale") or b.pick([1e3, 1e6, 1e9, 1e-4])
+            b.feat("scaled_constraint")
+        b.cons(e, "<=", 1.0 if ic == "dist" else 2.25, initial=True, **kw)
     # metric(s)
     mets = []
     nm = b.pick([1, 1, 1, 2])
@@ -625,7 +649,13 @@ def _add_lmi(b, owner="pep"):
         o = [b.expr([[b.pick([0.5, -0.5, 0.2]), "ip", b.pick(b.points), b.pick(b.points)]]) for _ in range(3)]
         rows = [[d[0], o[0], o[1]], [o[0], d[1], o[2]], [o[1], o[2], d[2]]]
     b.feat("lmi_" + kind)
-    return b.lmi(rows, owner=owner)
+    kw = {}
+    if rng.random() < 0.3:
+        kw["via_numpy"] = True
+        if rng.random() < 0.6:
+            kw["clobber"] = True
+        b.feat("lmi_from_numpy")
+    return b.lmi(rows, owner=owner, **kw)
 
 
 def fam_operator(rng, opts=None):
